@@ -2,7 +2,7 @@
 import collections
 import re
 
-from mirlib import describe_rvalue, AnchorMissing, describe_operand, dom_guards, guards, _suffix_match
+from mirlib import op_place, describe_rvalue, AnchorMissing, describe_operand, dom_guards, guards, _suffix_match
 from rules.common import crate_aggregates, owner_def, where
 from rules.C19 import table
 
@@ -271,17 +271,61 @@ def run(ctx):
 
     inc_b = ctx.saw(rc.fn(name="incremental_compare"))
     with ctx.rule("C15.R6", "T5", "incremental_compare treats both sides alike; its skippable events are the hasher's synthetic ones", floor=8) as r:
-        side = {"first_iter": 1, "second_iter": 2}
+        # sides are told apart by data flow, not by variable names: input k is parameter k; validator k is the k-th ValueValidator::new(); an event
+        # belongs to side k when it was bound from component k of the pair of `next()` results
+        vnew = sorted([c for c in inc_b.calls if c.name == "new" and "ValueValidator" in c.defpath], key=lambda c: (c.line, c.block))
+        vside = {c.dest[0]: k + 1 for k, c in enumerate(vnew)}
+
+        def root_local(op):
+            pl = op_place(op)
+            if pl is None:
+                return None
+            return inc_b.resolve(pl).root
+
+        def iter_side(op):
+            rl = root_local(op)
+            return rl if rl in (1, 2) else None
+
+        def validator_side(op):
+            return vside.get(root_local(op))
+
+        def event_side(op):
+            pl0 = op_place(op)
+            if pl0 and pl0[1] and isinstance(pl0[1][0], list) and pl0[1][0][0] == "f" and isinstance(pl0[1][0][1], int) and len(pl0[1]) > 1:
+                return pl0[1][0][1] + 1
+            if pl0 is None:
+                return None
+            if not pl0[1] or pl0[1] == ["*"]:
+                # a (reference to a) local: look at what it was bound from; `resolve` would run through to the pair itself
+                rl = pl0[0]
+                d0 = inc_b.single_def(rl)
+                if d0 is not None and d0[0] == "assign" and d0[3][0] == "ref":
+                    rl = d0[3][2][0]
+            else:
+                rl = root_local(op)
+            for _hop in range(6):
+                ds_ = inc_b.defs.get(rl, ())
+                if len(ds_) == 1 and ds_[0][0] == "assign" and ds_[0][3][0] == "use" and op_place(ds_[0][3][1]) is not None and not op_place(ds_[0][3][1])[1]:
+                    rl = op_place(ds_[0][3][1])[0]
+                else:
+                    break
+            for d_ in inc_b.defs.get(rl, ()):
+                if d_[0] == "assign" and d_[3][0] in ("use", "ref"):
+                    pl = op_place(d_[3][1]) if d_[3][0] == "use" else d_[3][2]
+                    if pl and pl[1] and isinstance(pl[1][0], list) and pl[1][0][0] == "f" and isinstance(pl[1][0][1], int):
+                        return pl[1][0][1] + 1
+            return None
+        if len(vnew) != 2:
+            raise AnchorMissing("incremental_compare: expected two ValueValidator::new() calls")
         nexts = [c for c in inc_b.calls if c.name == "next"]
         skips = collections.defaultdict(set)
-        refill = collections.defaultdict(list)
         for c in inc_b.calls:
             if c.name in ("eq", "ne") and "ReadEvent" in (c.defpath + str(c.callee)):
                 ds = [describe_operand(inc_b, a) for a in c.args]
                 const = [d for d in ds if d.startswith("ReadEvent::") and d.endswith("()")]
-                var = [d for d in ds if d in ("event_1", "event_2")]
-                if len(const) == 1 and len(var) == 1:
-                    which = int(var[0][-1])
+                var = [a for a, d in zip(c.args, ds) if not (d.startswith("ReadEvent::") and d.endswith("()"))]
+                if len(const) == 1 and len(var) == 1 and event_side(var[0]) is not None:
+                    which = event_side(var[0])
                     nm = const[0][len("ReadEvent::"):-2]
                     skips[which].add(nm)
                     tr = inc_b.bool_edges(c)
@@ -290,13 +334,13 @@ def run(ctx):
                         continue
                     tb = tr[0] if c.name == "eq" else tr[1]
                     nx = [n for n in nexts if inc_b.dominates(tb, n.block)]
-                    fe = [x for x in inc_b.calls if x.name == "feed_event" and inc_b.dominates(tb, x.block) and describe_operand(inc_b, x.args[1]) == var[0]]
-                    it = sorted({describe_operand(inc_b, n.args[0]) for n in nx})
-                    r.check(it == ["first_iter" if which == 1 else "second_iter"], "compare/side%d/%s/refill-from-own-iterator" % (which, nm), c.loc(), "after skipping, side %d continues with the next event of its own input" % which,
-                            "after skipping %s on side %d the next event is taken from %s" % (nm, which, it))
-                    vd = sorted({describe_operand(inc_b, x.args[0]) for x in fe})
-                    r.check(vd == ["validator_%d" % which], "compare/side%d/%s/skipped-event-fed-to-own-validator" % (which, nm), c.loc(), "the skipped event still advances this side's structure validator",
-                            "the skipped %s of side %d is fed to %s" % (nm, which, vd))
+                    fe = [x for x in inc_b.calls if x.name == "feed_event" and inc_b.dominates(tb, x.block) and root_local(x.args[1]) == root_local(var[0])]
+                    it = sorted({iter_side(n.args[0]) for n in nx}, key=str)
+                    r.check(it == [which], "compare/side%d/%s/refill-from-own-iterator" % (which, nm), c.loc(), "after skipping, side %d continues with the next event of its own input" % which,
+                            "after skipping %s on side %d the next event is taken from input %s" % (nm, which, it))
+                    vd = sorted({validator_side(x.args[0]) for x in fe}, key=str)
+                    r.check(vd == [which], "compare/side%d/%s/skipped-event-fed-to-own-validator" % (which, nm), c.loc(), "the skipped event still advances this side's structure validator",
+                            "the skipped %s of side %d is fed to validator %s" % (nm, which, vd))
         r.check(skips[1] == skips[2] and bool(skips[1]), "compare/skippable-events/same-on-both-sides", where(inc_b), "both sides may skip %s" % sorted(skips[1]),
                 "side 1 may skip %s, side 2 %s: compare(a, b) and compare(b, a) differ" % (sorted(skips[1]), sorted(skips[2])))
         hsyn = set()
@@ -312,21 +356,19 @@ def run(ctx):
         for c in inc_b.calls:
             if c.name != "feed_event":
                 continue
-            v = describe_operand(inc_b, c.args[0])
-            e = describe_operand(inc_b, c.args[1])
-            which = 1 if v == "validator_1" else 2 if v == "validator_2" else 0
-            if e in ("event_1", "event_2"):
-                src = int(e[-1])
-            elif "next(first_iter)" in e and "next(second_iter)" in e:
-                m = re.search(r"\)\)\.(\d)", e)
-                src = int(m.group(1)) + 1 if m else 0
-            else:
-                src = 0
+            which = validator_side(c.args[0])
+            src = event_side(c.args[1])
             n += 1
-            r.check(which != 0 and which == src, "compare/feed_event#%d/own-side" % n, c.loc(), "validator_%d is fed an event of input %d" % (which, src), "%s is fed %s: the structure of one input is tracked with events of the other" % (v, e[:80]))
+            r.check(which is not None and which == src, "compare/feed_event#%d/own-side" % n, c.loc(), "validator %s is fed an event of input %s" % (which, src),
+                    "validator %s is fed an event of input %s: the structure of one input is tracked with events of the other" % (which, src))
         # after a skip the two validators report what the current events completed (the shape of a record that has just ended): the only trace of a
         # different brace structure once both return to their initial state. The two reports must be compared and a difference must be decisive.
-        vcmp = [c for c in inc_b.calls if c.name in ("ne", "eq") and sorted(describe_operand(inc_b, a) for a in c.args) == ["feed_event(validator_1, event_1)", "feed_event(validator_2, event_2)"]]
+        def feed_side(op):
+            for s_ in inc_b.sources(op):
+                if s_[0] == "call" and s_[1].name == "feed_event":
+                    return validator_side(s_[1].args[0])
+            return None
+        vcmp = [c for c in inc_b.calls if c.name in ("ne", "eq") and len(c.args) == 2 and sorted(str(feed_side(a)) for a in c.args) == ["1", "2"]]
         okv = False
         if len(vcmp) == 1:
             e = inc_b.bool_edges(vcmp[0])
@@ -336,7 +378,9 @@ def run(ctx):
                 okv = bool(rets)
         r.check(okv, "compare/values-completed-after-skips-are-compared", vcmp[0].loc() if vcmp else where(inc_b), "what the two events complete in their validators is compared, and a difference answers `false`",
                 "the results of the two feed_event calls after a skip are not compared: when both inputs end there the validators are back in their initial state and differently nested records compare equal ({1,2,{}} vs {1,{2}}) while their hashes differ")
-        fin = [c for c in inc_b.calls if c.name == "ne" and sorted(describe_operand(inc_b, a) for a in c.args) == ["event_1", "event_2"]]
+        skip_eqs = [c for c in inc_b.calls if c.name in ("eq", "ne") and any(describe_operand(inc_b, a).startswith("ReadEvent::") for a in c.args)]
+        fin = [c for c in inc_b.calls if c.name == "ne" and len(c.args) == 2 and not any(describe_operand(inc_b, a).startswith("ReadEvent::") for a in c.args)
+               and sorted(str(event_side(a)) for a in c.args) == ["1", "2"] and skip_eqs and all(inc_b.reaches(x.block, {c.block}) for x in skip_eqs) and not any(inc_b.reaches(c.block, {x.block}, avoid={n_.block for n_ in nexts[:2]}) for x in skip_eqs)]
         r.check(len(fin) == 1, "compare/mismatch-after-skips-decides", where(inc_b), "after the skips the two current events are compared once more and a mismatch is decisive")
 
     with ctx.rule("C15.R7", "T5", "the hasher's textual look-ahead stops at every character it tests and steps over string literals", floor=4) as r:
